@@ -5,12 +5,13 @@ import sys
 from hypothesis import strategies as st
 
 from ECAgent.Core import Model, System
+from ECAgent.Collectors import Collector
 from vf.engine import Violation, InvalidCase
 from vf.fixtures import check, expect_raises, sized_lists, wone_of
 
 PROPERTY = "C02"
 BUDGET = {"quick": 1600, "thorough": 5000}
-RULE = ("Up to 5 systems with start in [-6,10], frequency in [1,6] u {17}, end in {default sys.maxsize} u [start-2,start+12], each "
+RULE = ("Up to 5 systems (plain System subclasses and Collector subclasses, whose constructor forwards the window) with start in [-6,10], frequency in [1,6] u {17}, end in {default sys.maxsize} u [start-2,start+12], each "
         "registered at a generated timestep (also after its start); scripts (1-25 requests) of execute(), execute(n), "
         "systems.execute_systems() and invalid requests execute(0|-3|1.0|2.5|'2'|None). Oracle: closed form runs(t) <=> registered "
         "at t and start <= t <= end and (t-start) mod frequency == 0, compared with the (timestep read inside execute, id) log; "
@@ -33,6 +34,17 @@ class Win(System):
         self.log = log
 
     def execute(self):
+        self.log.append((self.model.systems.timestep, self.id))
+
+
+class WinCollector(Collector):
+    """collectors are systems too: their constructor forwards the window"""
+
+    def __init__(self, id, model, log, **kw):
+        super().__init__(id, model, **kw)
+        self.log = log
+
+    def collect(self):
         self.log.append((self.model.systems.timestep, self.id))
 
 
@@ -61,7 +73,7 @@ def play(case, expand):
             kw = {"start": int(s["start"]), "frequency": int(s["freq"])}
             if s.get("end") is not None:
                 kw["end"] = int(s["end"])
-            model.systems.add_system(Win(f"w{i}", model, log, **kw))
+            model.systems.add_system((WinCollector if s.get("coll") else Win)(f"w{i}", model, log, **kw))
             registered.append(i)
             if T > int(s["start"]):
                 info["late"] = True
@@ -176,7 +188,7 @@ def strategy(tier):
         freq = draw(st.sampled_from([1, 1, 2, 2, 3, 4, 5, 6, 17]))
         end = draw(wone_of(st.none(), st.none(), st.integers(start - 2, start + 12)))
         reg = draw(wone_of(st.just(0), st.just(0), st.integers(0, 12)))
-        return {"start": start, "freq": freq, "end": end, "reg_at": reg}
+        return {"start": start, "freq": freq, "end": end, "reg_at": reg, "coll": draw(st.sampled_from([False, False, True]))}
     op = wone_of(st.just({"op": "step"}), st.just({"op": "step"}), st.just({"op": "exec_systems"}),
                    st.builds(lambda n: {"op": "stepn", "n": n}, st.integers(1, 5)),
                    st.builds(lambda n: {"op": "stepn", "n": n}, st.integers(2, 5)),
@@ -191,4 +203,6 @@ def exhaustive(tier):
         starts, ends, freqs, T = range(-4, 7), list(range(-4, 9)) + [None], range(1, 6), 15
     for s, e, f in itertools.product(starts, ends, freqs):
         for reg in (0, max(0, s + 1)):
-            yield {"systems": [{"start": s, "freq": f, "end": e, "reg_at": reg}], "script": [{"op": "step"}] * T}
+            yield {"systems": [{"start": s, "freq": f, "end": e, "reg_at": reg, "coll": False}], "script": [{"op": "step"}] * T}
+            if reg == 0:
+                yield {"systems": [{"start": s, "freq": f, "end": e, "reg_at": 0, "coll": True}], "script": [{"op": "step"}] * T}
